@@ -12,6 +12,18 @@ type PropDef struct {
 var propOrder = []string{"C01", "C02", "C03", "C04", "C05", "C06", "C07", "C08", "C09", "C11", "C12", "C13", "C14", "C15", "C16", "C17", "C18", "C19", "C20"}
 
 var props = map[string]*PropDef{
+	"C12": {
+		Rules:      []string{"FORMAT-1", "WIDTH-1", "TABLE-ESC", "TXN-2", "DEPTH-1"},
+		Decided:    "(in progress)",
+		NotDecided: "(in progress)",
+		Technique:  "structural",
+	},
+	"C13": {
+		Rules:      []string{"FORMAT-1"},
+		Decided:    "(in progress)",
+		NotDecided: "(in progress)",
+		Technique:  "structural",
+	},
 	"C14": {
 		Rules:      []string{"NULL-1", "MERGE-1", "ANYPATH-1"},
 		Decided:    "(in progress)",
@@ -19,7 +31,7 @@ var props = map[string]*PropDef{
 		Technique:  "structural",
 	},
 	"C03": {
-		Rules:      []string{"ANYPATH-1", "INTERN-1"},
+		Rules:      []string{"ANYPATH-1", "INTERN-1", "CASE-SYM"},
 		Decided:    "(in progress)",
 		NotDecided: "(in progress)",
 		Technique:  "structural",
@@ -49,7 +61,7 @@ var props = map[string]*PropDef{
 		Technique:  "guard dominance + path-sensitive dataflow",
 	},
 	"C11": {
-		Rules:      []string{"TABLE-ESC", "SINK-1", "OPT-1"},
+		Rules:      []string{"TABLE-ESC", "SINK-1", "OPT-1", "WIDTH-1", "CASE-SYM"},
 		Decided:    "(in progress)",
 		NotDecided: "(in progress)",
 		Technique:  "table evaluation + sink audit",
@@ -73,7 +85,7 @@ var props = map[string]*PropDef{
 		Technique:  "path-sensitive go/cfg dataflow",
 	},
 	"C01": {
-		Rules:      []string{"KIND-1", "DEPTH-1", "MAPCACHE-1", "TXN-1"},
+		Rules:      []string{"KIND-1", "DEPTH-1", "MAPCACHE-1", "TXN-1", "CASE-SYM"},
 		Decided:    "(in progress)",
 		NotDecided: "(in progress)",
 		Technique:  "sibling matrix + table evaluation",
